@@ -1,0 +1,22 @@
+//go:build verif
+
+package v1
+
+import "io"
+
+// VerifHook, when set by a verification harness, is called at the points
+// named below. It is only compiled with the "verif" build tag.
+//   - "bufpool.put" (arg: *[]byte): a pooled buffer is about to be returned to BufPool
+var VerifHook func(point string, arg any)
+
+func verifPoint(point string, arg any) {
+	if h := VerifHook; h != nil {
+		h(point, arg)
+	}
+}
+
+// VerifProcessSegments runs the segment loop shared by Encrypt and Decrypt
+// with a caller-chosen segment size and segment function.
+func VerifProcessSegments(in io.Reader, out *io.PipeWriter, fn func(out io.Writer, data []byte, num uint32, last bool) error, segmentSize int) {
+	processSegments(in, out, fn, segmentSize)
+}
